@@ -1,8 +1,10 @@
 """Driver binding OrmSession.tla to a real sqlalchemy.orm.Session (SQLite FILE engine, autocommit=False, NullPool).
 
 Real      : one Session + the model objects + every observer the projection needs (side-effect free, DESIGN 3.8):
-            lifecycle from the five InstanceState predicates, loaded values from inspect(o).dict only, expiry from
-            state.expired_attributes, membership from session.new/dirty/deleted/identity_map, committed rows through a
+            lifecycle from the five InstanceState predicates, loaded values from inspect(o).dict only, expiry as "attribute
+            not present in state.dict" (state.expired_attributes keeps an attribute that was set while expired, so presence in
+            the dict is the observable the spec's `exp` stands for), membership from session.new/dirty/deleted/identity_map,
+            state.modified, was_deleted, committed rows through a
             separate raw sqlite3 connection opened and closed per read, the transaction's own view through
             session.connection() only when the session is already in a transaction, lifecycle listeners that record
             id(obj) only, statement count from before_cursor_execute.
